@@ -183,6 +183,7 @@ def main() -> int:
             results.append({"mutation": name, "property": prop, "file": rel, "exit": p.returncode, "failed_obligations": failed, "expected": expect, "ok": ok, "wall_s": round(dt, 1),
                             "undecided": [l for l in p.stdout.splitlines() if l.startswith("UNDECIDED")][:5]})
             print(f"SELFTEST {name} [{prop}]: {'DETECTED' if ok else 'MISSED'} exit={p.returncode} failed={failed} ({dt:.0f}s)", flush=True)
+            (root / "partial_results.json").write_text(json.dumps({"results": results}, indent=1))
             if not ok:
                 print(p.stdout[-1500:])
                 print(p.stderr[-1500:])
